@@ -361,7 +361,7 @@ func (p *Parser) parseItem() (secs2.Item, error) {
 }
 
 func (p *Parser) parseList(size int) (secs2.Item, error) {
-	childItems := make([]secs2.Item, 0, size)
+	childItems := make([]secs2.Item, 0, p.capHint(size))
 
 	for {
 		switch ch := p.peekNonSpaceRune(); ch {
@@ -419,7 +419,7 @@ func (p *Parser) parseASCIIStrict(size int) (secs2.Item, error) {
 	isNumStr := false
 	isEscapedCh := false
 	var sb strings.Builder
-	sb.Grow(size)
+	sb.Grow(p.capHint(size))
 
 	for i, ch := range p.data {
 		switch {
@@ -673,7 +673,7 @@ func (p *Parser) parseLocalizedStr() (secs2.Item, error) {
 }
 
 func (p *Parser) parseBoolean(size int) (secs2.Item, error) {
-	items := make([]bool, 0, size)
+	items := make([]bool, 0, p.capHint(size))
 	start := p.pos
 	values := p.getItemValueStrings()
 
@@ -692,7 +692,7 @@ func (p *Parser) parseBoolean(size int) (secs2.Item, error) {
 }
 
 func (p *Parser) parseBinary(size int) (secs2.Item, error) {
-	items := make([]byte, 0, size)
+	items := make([]byte, 0, p.capHint(size))
 	start := p.pos
 	values := p.getItemValueStrings()
 
@@ -713,7 +713,7 @@ func (p *Parser) parseBinary(size int) (secs2.Item, error) {
 }
 
 func (p *Parser) parseFloat(byteSize int, size int) (secs2.Item, error) {
-	items := make([]float64, 0, size)
+	items := make([]float64, 0, p.capHint(size))
 	start := p.pos
 	values := p.getItemValueStrings()
 
@@ -734,7 +734,7 @@ func (p *Parser) parseFloat(byteSize int, size int) (secs2.Item, error) {
 }
 
 func (p *Parser) parseInt(byteSize int, size int) (secs2.Item, error) {
-	items := make([]int64, 0, size)
+	items := make([]int64, 0, p.capHint(size))
 	start := p.pos
 	values := p.getItemValueStrings()
 
@@ -755,7 +755,7 @@ func (p *Parser) parseInt(byteSize int, size int) (secs2.Item, error) {
 }
 
 func (p *Parser) parseUint(byteSize int, size int) (secs2.Item, error) {
-	items := make([]uint64, 0, size)
+	items := make([]uint64, 0, p.capHint(size))
 	start := p.pos
 	values := p.getItemValueStrings()
 
@@ -947,6 +947,14 @@ func getIntFormatCode(signed rune, byteSize rune) (secs2.FormatCode, bool) {
 	default:
 		return 0, false
 	}
+}
+
+// capHint bounds a size hint that is about to size a pre-allocation by the length of the unread
+// input. The hint comes straight from the text (up to 2^31-1) while every element it announces
+// needs at least one input byte, so a larger value cannot be honest: used unchecked, a 20-byte
+// input such as "<L[2000000000]>" allocated tens of gigabytes.
+func (p *Parser) capHint(size int) int {
+	return min(size, len(p.data))
 }
 
 func (p *Parser) forward(n int) bool {
